@@ -51,3 +51,12 @@ chk("C14", "fault_enumeration",
     "or accepted by all three with byte-identical output and an identical decoded tree (independent parser) to the completed image.",
     "Crash model: process death between two output system calls with the page cache intact; padding after bytes_used is not compared.",
     "exhaustive crash-point injection at output system calls", "3/C14")
+chk("C09", "exploration",
+    "The unmodified thread pool source is compiled against a cooperative scheduler (rt/vsched.c) that turns every pthread mutex/cond/create/join call into a scheduling point: "
+    "complete enumeration for W=1,N=1 (all failure positions and client patterns, also with one spurious wake-up as an explicit choice), depth-first enumeration with preemption bound 2 (quick) / 3 (thorough) "
+    "for W<=2 (3 in thorough), N<=3 (4), every failing-item position and five client patterns, random walks with spurious wake-ups up to W=3,N=5; online assertions at the client boundary and in the "
+    "worker callback (exactly-once processing and hand-back, submission order, per-worker context exclusivity, every call returns, deadlock detector). The real block processor runs on the same "
+    "controlled pool with a scripted compressor and a recording writer: results must equal the serial pool's and a failing compressor call must surface as an error. Real threads run under ThreadSanitizer.",
+    "Scheduling granularity is the pthread call; hardware reorderings are covered only by TSan on observed runs. Only the smallest configuration is enumerated completely; "
+    "the rest is bounded by preemptions or sampled.",
+    "schedule enumeration of real code under a controlled scheduler + TSan stress", "3/C09")
